@@ -13,6 +13,7 @@
         Double   size' = 2 * size   =>  steps' <= 2 * steps + C      (linear: doubling the input at most doubles the work)
         Declare  size' = size       =>  steps' <= steps + C          (work does not follow a declared length)
         depth <= D                                                    (recursion depth bounded by a constant)
+        History  same input, k earlier parses  =>  steps_k <= steps_0 + C   (the constant belongs to the class, not to the process history)
    C is the work at the smallest size of the series plus a fixed slack (start-up cost), D a constant. *)
 EXTENDS Integers, Sequences, TLC
 
@@ -41,4 +42,6 @@ PointOk(prev, cur, c0) ==
    IF cur.out # prev.out THEN TRUE
    ELSE IF cur.size = prev.size THEN TRUE
    ELSE cur.steps <= ((cur.size + prev.size - 1) \div prev.size) * prev.steps + c0 + Slack
+\* a fixed input costs the same however many inputs were parsed before (first parse: lazy imports and registries, hence >=)
+HistoryOk(first, cur) == cur.out # first.out \/ cur.steps <= first.steps + Slack
 =============================================================================
